@@ -392,6 +392,7 @@ C01_young(g, o, ln) ==
    (ln.k = "signal" /\ g.inPass /\ ~g.ctx.on /\ ln.r = "ok") =>
       \A i \in WIdx(o) : LET wr == o.w[i] IN
          (ln.p \in Pids(wr) /\ wr.mage > 0 /\ wr.st = "active" /\ Len(wr.pr) <= wr.np /\ ln.p \notin Stopping(wr)
+            /\ ln.p \notin g.killed        \* (no termination of it has begun before: Process.stop() signals once more at the end of one)
             /\ KSt(o, ln.p) = "run" /\ ln.p \in 1..Len(g.bornT) /\ g.bornT[ln.p] >= 0 /\ g.bornT[ln.p] < g.passT0)
            => ln.t - g.bornT[ln.p] + 1 >= wr.mage * 100
 C01_fresh(g, o, o2) ==
